@@ -49,6 +49,8 @@ theorem t_m3_concat2 (a b : M3 K) : t_m3_concat2 (envL (a.toList ++ b.toList)) =
 theorem t_m3_concat (a b : M3 K) : t_m3_concat (envL (a.toList ++ b.toList)) = .okS (a * b).toList := by tr_auto
 theorem t_m4_concat (a b : M4 K) : t_m4_concat (envL (a.toList ++ b.toList)) = .okS (a * b).toList := by tr_auto
 theorem t_m3_concat_self2 (a b : M3 K) : t_m3_concat_self2 (envL (a.toList ++ b.toList)) = .okS (a * b).toList := by tr_auto
+/-- `<Matrix3 as Transform<Point3>>::concat_self` (the default method of the 3-D impl) -/
+theorem t_m3_concat_self (a b : M3 K) : t_m3_concat_self (envL (a.toList ++ b.toList)) = .okS (a * b).toList := by tr_auto
 theorem t_m4_concat_self (a b : M4 K) : t_m4_concat_self (envL (a.toList ++ b.toList)) = .okS (a * b).toList := by tr_auto
 theorem t_dq_concat_self (d e : DQ K) :
     t_dq_concat_self (envL (flq d ++ flq e)) = .okS (flq (Decomposed.concat quatOps d e)) := by tr_auto
